@@ -704,9 +704,9 @@ func writeCurveTemplate(repoRoot, srcRoot, verifRoot, tmpl, fileName string, pkg
 // gtExpTypes lists, per tower package, the extension types whose Exp is the 2-bit fixed-window loop.
 func gtExpTypes(srcRoot string) map[string][]string {
 	out := map[string][]string{}
-	for _, pk := range globPkgs(srcRoot, "ecc/*/internal/fptower") {
+	for _, pk := range globPkgs(srcRoot, "ecc/*/internal/fptower", "field/*/extensions") {
 		dir := filepath.Join(srcRoot, strings.TrimPrefix(pk, "./"))
-		for _, t := range []string{"E6", "E12", "E24"} {
+		for _, t := range []string{"E2", "E4", "E6", "E12", "E24"} {
 			b, err := os.ReadFile(filepath.Join(dir, strings.ToLower(t)+".go"))
 			if err != nil {
 				continue
@@ -722,6 +722,8 @@ func gtExpTypes(srcRoot string) map[string][]string {
 			}
 			if strings.Contains(body, "ops[2].Set(&ops[0]).Mul(&ops[2], &ops[1])") && strings.Contains(body, "res.Square(&res).Square(&res)") {
 				out[pk] = append(out[pk], t)
+			} else if strings.Contains(body, "z.Square(z)") && strings.Contains(body, "(w & (0b10000000 >> j)) != 0") && strings.Contains(body, "for j := 0; j < 8; j++") {
+				out[pk] = append(out[pk], "bit:"+t) // the bit-by-bit variant
 			}
 		}
 	}
@@ -739,16 +741,21 @@ func writeGTExp(repoRoot, srcRoot, verifRoot string, check bool) int {
 		return 0
 	}
 	head, block := tmpl[:i], tmpl[i:]
+	bitBlock := ""
+	if j := strings.Index(block, "// The smaller extensions exponentiate bit by bit"); j >= 0 {
+		block, bitBlock = block[:j], block[j:]
+	}
 	stale := 0
 	types := gtExpTypes(srcRoot)
 	for _, pk := range sortedKeysSS(types) {
 		rel := strings.TrimPrefix(pk, "./")
-		s := strings.ReplaceAll(head, "PKG", "fptower")
-		for k, t := range types[pk] {
-			if k > 0 {
-				s += "\n"
+		s := strings.ReplaceAll(head, "PKG", filepath.Base(rel))
+		for _, t := range types[pk] {
+			if bt, isBit := strings.CutPrefix(t, "bit:"); isBit {
+				s += "\n" + strings.ReplaceAll(bitBlock, "BTYPE", bt)
+			} else {
+				s += "\n" + strings.ReplaceAll(block, "TYPE", t)
 			}
-			s += strings.ReplaceAll(block, "TYPE", t)
 		}
 		stale += installText(filepath.Join(repoRoot, rel, "zz_verif_contracts_gtexp.go"), s, check)
 	}
